@@ -34,6 +34,22 @@ theorem shifted_extract {k : Nat} {inp : Input} (h : k ≤ inp.size) :
       apply Array.getElem?_eq_none
       simp at hp; omega
 
+theorem foldl_getD_rel {k : Nat} {f f' : Option Nat → Str → Option Nat}
+    (h : ∀ b s, f (b.map (· + k)) s = (f' b s).map (· + k)) (subs : List Str) (n n' : Nat)
+    (hn : n = n' + k) : (subs.foldl f none).getD n = (subs.foldl f' none).getD n' + k := by
+  have key : ∀ (subs : List Str) (b : Option Nat),
+      subs.foldl f (b.map (· + k)) = (subs.foldl f' b).map (· + k) := by
+    intro subs
+    induction subs with
+    | nil => intro b; rfl
+    | cons s rest ih => intro b; simp only [List.foldl_cons]; rw [h, ih]
+  have := key subs none
+  simp only [Option.map_none] at this
+  rw [this]
+  cases subs.foldl f' none with
+  | none => simpa using hn
+  | some q => simp
+
 section prim
 variable {k : Nat} {inp inp' : Input} (hS : Shifted k inp inp')
 include hS
@@ -95,45 +111,21 @@ theorem findFrom_shift (sub : Str) (p : Nat) :
 theorem skipUntilPos_shift (subs : List Str) (p : Nat) :
     L1.skipUntilPos inp subs (p + k) = L1.skipUntilPos inp' subs p + k := by
   unfold L1.skipUntilPos
-  have key : ∀ (subs : List Str) (b : Option Nat),
-      subs.foldl (fun (b : Option Nat) s =>
-        match findFrom inp s (p + k) with
-        | some p => (match b with | none => some p | some q => if p < q then some p else some q)
-        | none => b) (b.map (· + k))
-      = (subs.foldl (fun (b : Option Nat) s =>
-        match findFrom inp' s p with
-        | some p => (match b with | none => some p | some q => if p < q then some p else some q)
-        | none => b) b).map (· + k) := by
-    intro subs
-    induction subs with
-    | nil => intro b; rfl
-    | cons s rest ih =>
-      intro b
-      simp only [List.foldl_cons]
-      rw [← ih]
-      congr 1
-      rw [findFrom_shift hS]
-      cases findFrom inp' s p with
-      | none => rfl
-      | some q =>
-        cases b with
-        | none => rfl
-        | some r =>
-          simp only [Option.map_some]
-          by_cases h : q < r
-          · have : q + k < r + k := by omega
-            simp [h, this]
-          · have : ¬ q + k < r + k := by omega
-            simp [h, this]
-  have := key subs none
-  simp only [Option.map_none] at this
-  rw [this]
-  cases (subs.foldl (fun (b : Option Nat) s =>
-        match findFrom inp' s p with
-        | some p => (match b with | none => some p | some q => if p < q then some p else some q)
-        | none => b) none) with
-  | none => simp [hS.size]
-  | some q => simp
+  refine foldl_getD_rel ?_ subs _ _ hS.size
+  intro b s
+  simp only [findFrom_shift hS]
+  cases findFrom inp' s p with
+  | none => rfl
+  | some q =>
+    cases b with
+    | none => rfl
+    | some r =>
+      simp only [Option.map_some]
+      by_cases h : q < r
+      · have : q + k < r + k := by omega
+        simp [h, this]
+      · have : ¬ q + k < r + k := by omega
+        simp [h, this]
 
 theorem matchAll_shift (ls : List Str) : ∀ p,
     L1.matchAll inp ls (p + k) = (L1.matchAll inp' ls p).map (· + k) := by
